@@ -1,6 +1,7 @@
 import TallyVerif.Model.Csv
 import TallyVerif.Model.Engine
 import TallyVerif.Model.Totals
+import TallyVerif.Model.Migrate
 /-!
 M-Pipeline — `tally up` as the composition it is:
 
@@ -10,7 +11,13 @@ M-Pipeline — `tally up` as the composition it is:
 classified by `classifyRow` = `normalize_merchant` on the engine path: field transforms
 (`apply_transforms`), then `Engine.matchTxn` (C01/C02/C08/C09) with the supplemental rows, then the
 Unknown fallback; the classified transactions are totalled by `Totals.analyze` (C06).
-Core Lean only.  Legacy-CSV rule files are not composed here (their loop is `Rules.legacy`, C01/C14).
+Core Lean only.
+
+A budget's rules are one of three things (`Rulebook`): a `.rules` file (the engine, `hasEngine`), a LEGACY
+`merchant_categories.csv` (`legacy := some …`: the tuple loop `Rules.legacy` of C01 over the per-tuple test of
+`normalize_merchant` — expression-shaped patterns through the evaluator, otherwise `re.search` on the upper-cased
+description followed by the `[amount…]` / `[date…]` / `[month…]` modifiers `Migrate.checkAll` of C14, tags through
+`_resolve_dynamic_tags`), or nothing.  `upLoop` is `cmd_run`'s loop over the configured sources, for ANY classifier.
 -/
 namespace TallyVerif.Pipeline
 open TallyVerif.Py TallyVerif.Expr TallyVerif.Rules TallyVerif.Engine
@@ -45,12 +52,26 @@ structure Classified where
   month : String
 deriving Repr
 
+/-- one tuple of `get_all_rules(<merchant_categories.csv>)`:
+`(pattern, merchant, category, subcategory, parsed, 'user', tags)` -/
+structure LegacyRule where
+  rule : LRule                     -- `idx` = position in the file; `pattern` = `parsed.regex_pattern` (modifiers cut off)
+  patternE : PExpr                 -- the pattern read by `parse_expression`; `none`: it raises ExpressionError
+  mods : Migrate.Parsed            -- `[amount…]` / `[date…]` / `[month…]` conditions; thresholds EXACT, in units of 2^-1074
+  tags : List TagSpec              -- the `Tags` cell, split at `|`
+
+/-- a legacy CSV rule file as loaded, and the one thing its modifiers read from the outside world -/
+structure LegacyBook where
+  rules : List LegacyRule
+  cutoff : Nat → Option Migrate.Date      -- `date.today() - timedelta(days=n)` for the `[date:lastNdays]` conditions present
+
 structure Rulebook where
   mode : Mode
   variables : List (String × PExpr)
   transforms : List (String × PExpr)       -- (field name without the `field.` prefix, expression)
   rules : List RuleX
-  hasEngine : Bool                         -- false: no rules file (everything falls back to Unknown)
+  hasEngine : Bool                         -- false: no `.rules` file (`_cached_engine is None`: the tuple loop runs)
+  legacy : Option LegacyBook := none       -- the tuples of a legacy CSV file; `none`: no rules file at all (no tuple)
 
 def ctxOfRow (fnames : List String) (sources : List (String × Val)) (r : Row) : Ctx :=
   { description := r.description, amount := .flt r.amount, date := r.date, source := r.source,
@@ -58,35 +79,183 @@ def ctxOfRow (fnames : List String) (sources : List (String × Val)) (r : Row) :
     variables := [], sources := sources, functionNames := fnames }
 
 /-- `apply_transforms`: each transform is evaluated on the transaction as the previous ones left it;
-any exception skips it; a custom-field target needs a field dict -/
-def applyTransforms (o : Oracles) (fnames : List String) (sources : List (String × Val)) :
+any exception skips it; a custom-field target needs a field dict.  The context is
+`TransactionContext.from_transaction(transaction)` — WITHOUT the supplemental rows: a transform that names a
+supplemental source raises ExpressionError and is skipped (`transform_sees_no_supplemental` in Props/C11) -/
+def applyTransforms (o : Oracles) (fnames : List String) :
     List (String × PExpr) → Row → Except Err Row
   | [], r => .ok r
   | (name, e) :: rest, r =>
-    match evalP true o (ctxOfRow fnames sources r) e with
+    match evalP true o (ctxOfRow fnames [] r) e with
     | .error (.unmodelled w) => .error (.unmodelled w)
-    | .error _ => applyTransforms o fnames sources rest r
+    | .error _ => applyTransforms o fnames rest r
     | .ok v =>
       match pyStr o v with
       | .error (.unmodelled w) => .error (.unmodelled w)
-      | .error _ => applyTransforms o fnames sources rest r
+      | .error _ => applyTransforms o fnames rest r
       | .ok s =>
-        if name == "description" then applyTransforms o fnames sources rest { r with description := s }
+        if name == "description" then applyTransforms o fnames rest { r with description := s }
         else match r.field with
-          | none => applyTransforms o fnames sources rest r          -- `transaction['field']` is None: TypeError, skipped
-          | some f => applyTransforms o fnames sources rest { r with field := some (Rules.setField name s f) }
+          | none => applyTransforms o fnames rest r          -- `transaction['field']` is None: TypeError, skipped
+          | some f => applyTransforms o fnames rest { r with field := some (Rules.setField name s f) }
 
 def monthOf (d : Option Date) : String :=
   match d with
   | some d => pad 4 d.y ++ "-" ++ pad 2 d.m
   | none => ""
 
-/-- `normalize_merchant` (engine path) for one parsed row -/
+/-! ### the legacy tuple loop (`merchant_categories.csv`) -/
+
+def startsWithS (s p : List Char) : Bool := isPrefixL p s
+
+/-- `re.match(r'^(w1|w2|…)\s*C', s)` for alternatives none of which is a prefix of another: some alternative is a
+prefix of `s`, then whitespace, then a character satisfying `C` -/
+def wordThen (words : List String) (next : Char → Bool) (s : List Char) : Bool :=
+  words.any fun w =>
+    isPrefixL w.toList s &&
+      (match ((s.drop w.length).dropWhile isPySpace).head? with
+       | some c => next c
+       | none => false)
+
+/-- a parenthesised pattern that is just a literal or a name (`(123)`, `(1)`, `(source)`): `ast.parse(...).body` is a
+`Constant` or a `Name` — a regex group around a word, not a condition (D1b repair) -/
+def isAtomE : PExpr → Bool
+  | some (.const _) => true
+  | some (.name _) => true
+  | _ => false
+
+/-- `_is_expression_pattern`: does the Pattern cell look like an expression rather than a regular expression.
+`e` is the cell as Python parses it (`none`: it does not parse / is not in the language). -/
+def isExpressionPattern (pattern : String) (e : PExpr) : Bool :=
+  let s := pattern.toList
+  wordThen ["contains", "normalized", "anyof", "startswith", "fuzzy", "regex", "extract", "split", "substring", "trim", "exists"]
+      (· == '(') s ||
+    wordThen ["amount", "month", "year", "day", "source", "description"]
+      (fun c => c == '<' || c == '>' || c == '=' || c == '!') s ||
+    isPrefixL "field.".toList s || containsL " and ".toList s || containsL " or ".toList s ||
+    (isPrefixL ['('] s && !isAtomE e)
+
+/-- the EXACT value of a finite double, in units of 2^-1074 (the spacing of the subnormals, so every finite double is
+an integer number of units); `none` for ±inf and NaN.  Pure bit arithmetic: kernel-evaluable. -/
+def unitsOfBits (b : UInt64) : Option Int :=
+  let n := b.toNat
+  let e := (n / 2 ^ 52) % 2048
+  let m := n % 2 ^ 52
+  if e == 2047 then none
+  else
+    let mag : Nat := if e == 0 then m else (2 ^ 52 + m) * 2 ^ (e - 1)
+    some (if n / 2 ^ 63 == 1 then -(mag : Int) else (mag : Int))
+
+/-- the double `0.01` (0x3F847AE147AE147B) in those units: the tolerance of `[amount=v]` -/
+def epsUnits : Int := 0x147AE147AE147B * 2 ^ 1015
+
+example : unitsOfBits 0x3F847AE147AE147B = some epsUnits := by decide +kernel
+/-- 15.99 = 0x402FFAE147AE147B is 9001569755206779 · 2^-49 exactly; −2.5; the smallest subnormal; +inf -/
+example : unitsOfBits 0x402FFAE147AE147B = some (9001569755206779 * 2 ^ (1074 - 49)) ∧
+    unitsOfBits 0xC004000000000000 = some (-(5 * 2 ^ 1073)) ∧ unitsOfBits 1 = some 1 ∧
+    unitsOfBits 0x7FF0000000000000 = none := by decide +kernel
+
+def toMDate (d : Date) : Migrate.Date := ⟨d.y, d.m, d.d⟩
+
+def needsCutoff : Migrate.DateCond → Option Nat
+  | .relative n => some n
+  | _ => none
+
+/-- the regex arm of one tuple's test: `re.search(pattern, description.upper(), re.IGNORECASE)`, then — only when
+the tuple carries modifiers — `check_all_conditions(parsed, amount, txn_date)`; `re.error` skips the tuple -/
+def legacyRegex (o : Oracles) (cutoff : Nat → Option Migrate.Date) (row : Row) (r : LegacyRule) : Except Err LOutcome := do
+  let du ← pyUpper o row.description
+  match o.reSearch r.rule.pattern du with
+  | none => needE "re_search" [r.rule.pattern, du]
+  | some none => pure .skipped
+  | some (some false) => pure .noMatch
+  | some (some true) =>
+    if r.mods.amount.isEmpty && r.mods.date.isEmpty then pure .matched
+    else if !(r.mods.date.all fun c => match needsCutoff c with | some n => (cutoff n).isSome | none => true) then
+      .error (.unmodelled "relative date modifier without a cutoff")
+    else
+      match unitsOfBits row.amount with
+      | none => .error (.unmodelled "modifier on a non-finite amount")
+      | some a =>
+        pure (if Migrate.checkAll epsUnits (fun n => (cutoff n).getD ⟨0, 0, 0⟩) r.mods (some a) (row.date.map toMDate)
+              then .matched else .noMatch)
+
+/-- the test `normalize_merchant` applies to one tuple: an expression-shaped pattern is handed to
+`expr_parser.matches_transaction` WITH the supplemental rows; when that raises ExpressionError (it does not parse,
+names an unknown variable …) the pattern is a regular expression after all (D1 repair) -/
+def legacyOutcome (o : Oracles) (fnames : List String) (cutoff : Nat → Option Migrate.Date) (sources : List (String × Val))
+    (row : Row) (r : LegacyRule) : Except Err LOutcome :=
+  if isExpressionPattern r.rule.pattern r.patternE then
+    match caught (evalP true o (ctxOfRow fnames sources row) r.patternE) with
+    | .abort e => .error e
+    | .val v => pure (if truthy v then .matched else .noMatch)
+    | .skipped => legacyRegex o cutoff row r
+  else legacyRegex o cutoff row r
+
+/-- `_resolve_dynamic_tags`: static tags lower-cased; `{expr}` evaluated on the transaction (no supplemental rows, no
+variables), kept when truthy and not blank after `str(value).strip()`, lower-cased; ExpressionError skips the tag.
+A list: duplicates stay (the loop de-duplicates at the end). -/
+def resolveDynamicTags (o : Oracles) (ctx : Ctx) : List TagSpec → Except Err (List String)
+  | [] => .ok []
+  | .blank :: rest => resolveDynamicTags o ctx rest
+  | .static t :: rest => do
+    let l ← pyLower o t
+    let more ← resolveDynamicTags o ctx rest
+    pure (l :: more)
+  | .dynamic e :: rest =>
+    match caught (evalP true o ctx e) with
+    | .abort err => .error err
+    | .skipped => resolveDynamicTags o ctx rest
+    | .val v => do
+      let here ← (if !truthy v then pure [] else do
+        let s ← pyStr o v
+        let st := pyStrip s
+        if st.isEmpty then pure [] else do
+          let l ← pyLower o st
+          pure [l] : Except Err (List String))
+      let more ← resolveDynamicTags o ctx rest
+      pure (here ++ more)
+
+/-- the body of `for rule in rules:` for one tuple: its test, and — only if it matches — its tags -/
+def legacyEvalRule (o : Oracles) (fnames : List String) (cutoff : Nat → Option Migrate.Date) (sources : List (String × Val))
+    (row : Row) (r : LegacyRule) : Except Err LEval := do
+  let out ← legacyOutcome o fnames cutoff sources row r
+  match out with
+  | .matched => do
+    let tags ← resolveDynamicTags o (ctxOfRow fnames [] row) r.tags
+    pure ⟨.matched, tags⟩
+  | x => pure ⟨x, []⟩
+
+def legacyEvalRules (o : Oracles) (fnames : List String) (cutoff : Nat → Option Migrate.Date) (sources : List (String × Val))
+    (row : Row) : List LegacyRule → Except Err (List (LRule × LEval))
+  | [] => .ok []
+  | r :: rest => do
+    let e ← legacyEvalRule o fnames cutoff sources row r
+    let es ← legacyEvalRules o fnames cutoff sources row rest
+    pure ((r.rule, e) :: es)
+
+def levOf (table : List (LRule × LEval)) (r : LRule) : LEval :=
+  match table.find? (fun p => p.1.idx == r.idx) with
+  | some p => p.2
+  | none => ⟨.noMatch, []⟩
+
+/-- `normalize_merchant` on the legacy path (no cached engine) for a transaction as the transforms left it -/
+def classifyLegacy (o : Oracles) (fnames : List String) (sources : List (String × Val)) (lb : LegacyBook)
+    (row : Row) : Except Err LResult := do
+  let table ← legacyEvalRules o fnames lb.cutoff sources row lb.rules
+  pure (Rules.legacy (levOf table) (extractMerchantName row.description) (lb.rules.map (·.rule)))
+
+/-- `normalize_merchant` for one parsed row: transforms, then the cached engine if there is one, otherwise the tuple
+loop over the legacy rules (over no tuple at all when there is no rules file: the Unknown fallback) -/
 def classifyRow (o : Oracles) (fnames : List String) (key : Rule → Key) (sources : List (String × Val))
     (rb : Rulebook) (r : Row) : Except Err Classified := do
-  let r' ← applyTransforms o fnames sources rb.transforms r
+  let r' ← applyTransforms o fnames rb.transforms r
   if !rb.hasEngine then
-    pure ⟨extractMerchantName r'.description, "Unknown", "Unknown", [], r.amount, monthOf r.date⟩
+    match rb.legacy with
+    | none => pure ⟨extractMerchantName r'.description, "Unknown", "Unknown", [], r.amount, monthOf r.date⟩
+    | some lb =>
+      let res ← classifyLegacy o fnames sources lb r'
+      pure ⟨res.merchant, res.category, res.subcategory, res.tags, r.amount, monthOf r.date⟩
   else
     let res ← matchTxn true true key o (ctxOfRow fnames sources r') rb.mode rb.variables rb.rules
     let (m, c, s) := normalizeEngine res (extractMerchantName r'.description)
@@ -119,6 +288,53 @@ def discoverRows (o : Oracles) (fnames : List String) (key : Rule → Key) (sour
     (rb : Rulebook) (rows : List Row) : Except Err (List (String × (Nat × Float))) :=
   (classifyRows o fnames key sources rb rows).map fun cs =>
     discoverG floatNum (cs.map fun rc => (rc.1.description, rc.2.category, Float.ofBits rc.2.amount))
+
+/-! ### `cmd_run`: the loop over the configured sources, for any classifier -/
+
+/-- a configured data source as `cmd_run` meets it -/
+structure Source where
+  supplemental : Bool
+  /-- the rows `parse_generic_csv` reads from the file with THIS source's format / delimiter / header / decimal /
+  sign settings (before classification); `none`: the file is missing or reading it raises ("Error parsing") -/
+  parsed : Option (List Row)
+
+/-- the rows a source contributes once it is known to be an ordinary one -/
+def Source.rows (s : Source) : List Row := s.parsed.getD []
+
+/-- classify a statement row by row, in order; the first failure (the model declining) aborts -/
+def classifyAll (classify : Row → Except Err Classified) : List Row → Except Err (List Classified)
+  | [] => .ok []
+  | r :: rest => do
+    let c ← classify r
+    let cs ← classifyAll classify rest
+    pure (c :: cs)
+
+/-- one iteration of `for source in data_sources:` — `all_txns.extend(txns)` unless the source is supplemental
+(`continue`), missing (`continue`) or unreadable (`except Exception: continue`) -/
+def upStep (classify : Row → Except Err Classified) (acc : Except Err (List Classified)) (s : Source) :
+    Except Err (List Classified) := do
+  let sofar ← acc
+  if s.supplemental then pure sofar else
+  match s.parsed with
+  | none => pure sofar
+  | some rows => do
+    let cls ← classifyAll classify rows
+    pure (sofar ++ cls)
+
+/-- `cmd_run`'s transaction list: `classify` is `normalize_merchant` with the budget's rules (ANY of the three
+kinds of `Rulebook`), transforms and supplemental rows -/
+def upLoop (classify : Row → Except Err Classified) (sources : List Source) : Except Err (List Classified) :=
+  sources.foldl (upStep classify) (.ok [])
+
+/-- a classified transaction as `analyze_transactions` sees it, for any reading `amt` of the amount's bits
+(`Float.ofBits` in the driver; exact cents in the theorems) -/
+def toTotalsG {α : Type} (amt : UInt64 → α) (c : Classified) : Totals.Txn α :=
+  { amount := amt c.amount, tags := some c.tags, merchant := c.merchant, category := c.category,
+    subcategory := c.subcategory, month := c.month }
+
+/-- the figures of the report -/
+def reportG (N : NumLike) (lower : String → String) (amt : UInt64 → N.α) (cls : List Classified) : Totals.Stats N.α :=
+  Totals.analyze N lower (cls.map (toTotalsG amt))
 
 def toTotals (c : Classified) : Totals.Txn Float :=
   { amount := Float.ofBits c.amount, tags := some c.tags, merchant := c.merchant, category := c.category,
